@@ -43,6 +43,7 @@ CHECKS = {
             REPLAYS,
             rapid("decoder", "TestC15Decoder", 200000, 5000000, qshards=4, tshards=14),
             rapid("grammar", "TestC15Grammar", 80000, 1500000, qshards=4, tshards=14),
+            rapid("muxer", "TestC15Muxer", 400, 12000, qshards=4, tshards=14, shrinktime="30s"),
             fuzz("fuzz-media", "FuzzC15Media", 150),
             fuzz("fuzz-multi", "FuzzC15Multi", 100),
             fuzz("fuzz-any", "FuzzC15Any", 100),
@@ -117,7 +118,7 @@ CHECKS.update({
             "assumptions": ["a panic in a client goroutine kills the test process: every scenario is logged before execution and the driver replays the last one to attribute the crash",
                             "busy loop = more than 400 requests or more than 80% CPU of the process during a 1.5 s run that did not end by itself",
                             "mutations are applied to streams built by the harness; truncation points include every box boundary of the first three nesting levels"]},
-    "C08": {"steps": [REPLAYS, rapid("stress", "TestC08", 96, 2400, qshards=8, tshards=14, race=True, race_reports=True, schedule_dependent=True, replay_tries=3, shrinktime="30s", timeout={"quick": 900, "thorough": 3000})],
+    "C08": {"steps": [REPLAYS, rapid("stress", "TestC08", 240, 4800, qshards=8, tshards=14, race=True, race_reports=True, schedule_dependent=True, replay_tries=3, shrinktime="30s", timeout={"quick": 900, "thorough": 3000})],
             "replay_race": True,
             "assumptions": E1_ASSUME + ["schedules are the operating system's: VERIF_SEED fixes the plans, not the interleavings; the race detector only reports access pairs that were executed",
                                         "a race report is a violation by itself; the report text is saved as the replay artefact next to the plan that produced it",
